@@ -27,6 +27,12 @@ pub struct Case {
     pub mangling: bool,
     pub d0: JsVal,
     pub steps: Vec<Step>,
+    /// entry source given verbatim (exhaustive operator texts); the group is ignored then
+    #[serde(default)]
+    pub raw_entry: Option<String>,
+    /// extra data environments compared at creation
+    #[serde(default)]
+    pub envs: Vec<JsVal>,
 }
 
 pub struct C14 {
@@ -58,7 +64,7 @@ impl PropCheck for C14 {
             gen::data::data_env(2),
             proptest::collection::vec(gen::history::step(), 0..3),
         )
-            .prop_map(|(group, style, mutations, mangling, d0, steps)| Case { group, style, mutations, mangling, d0, steps })
+            .prop_map(|(group, style, mutations, mangling, d0, steps)| Case { group, style, mutations, mangling, d0, steps, raw_entry: None, envs: vec![] })
             .boxed()
     }
 
@@ -164,6 +170,9 @@ pub fn file_tag(src0: &str) -> Option<String> {
 }
 
 pub fn sources(c: &Case) -> Vec<(String, String)> {
+    if let Some(raw) = &c.raw_entry {
+        return vec![("p".to_string(), raw.clone())];
+    }
     let mut src = crate::compile::print_group(&c.group, c.style);
     if !c.mutations.is_empty() {
         src[0].1 = soup::apply(&src[0].1, &c.mutations, soup::WXML_ALPHABET);
@@ -229,7 +238,11 @@ pub fn eval_case(w: &mut Worker, c: &Case) -> Result<Outcome, String> {
         }
     };
     let (datas, trees, _) = super::c06::expand(&super::c06::Case { group: c.group.clone(), d0: c.d0.clone(), steps: c.steps.clone(), style: c.style });
-    let req = json!({"kind":"equiv","bundleA":ba,"bundleB":bb,"entry":"p","histories":[{"data":datas,"trees":trees}]});
+    let mut histories = vec![json!({"data":datas,"trees":trees})];
+    for e in &c.envs {
+        histories.push(json!({"data":[e.to_js()],"trees":[]}));
+    }
+    let req = json!({"kind":"equiv","bundleA":ba,"bundleB":bb,"entry":"p","histories":histories});
     let resp = w.request(&req).map_err(|e| e.0)?;
     out.sample = Some(json!({"source": crate::util::truncate(&src[0].1, 300), "printed": crate::util::truncate(&s1s[0].1, 300)}));
     if resp.get("error").is_some() {
@@ -281,6 +294,22 @@ pub fn run(tier: Tier, seed: u64, findings: &Findings) -> i32 {
     let check = C14 { cfg: wc };
     let mut report = engine::Report::default();
     report.merge(super::run_regress(&check, &cfg, findings));
+    // every operator-pair / adjacency text of C03's enumeration must keep its value through print + re-parse
+    let texts = super::c03::pair_texts();
+    let envs = super::c03::pair_envs(Tier::Quick);
+    let step = tier.pick(7, 1);
+    let envs: Vec<JsVal> = envs.into_iter().step_by(step).collect();
+    let mut explicit = vec![];
+    for (ci, ch) in texts.chunks(30).enumerate() {
+        let mut src = String::from("<v");
+        for (i, (t, _)) in ch.iter().enumerate() {
+            src.push_str(&format!(" a{}=\"{{{{{}}}}}\"", i, t));
+        }
+        src.push_str("/>");
+        explicit.push(Case { group: Group::default(), style: 0, mutations: vec![], mangling: ci % 2 == 1, d0: envs[0].clone(), steps: vec![], raw_entry: Some(src), envs: envs.clone() });
+    }
+    report.extra.insert("operator_texts".into(), json!(texts.len()));
+    report.merge(engine::run_explicit(&check, &cfg, explicit, 2, 16, findings));
     let cases = tier.pick(6000, 300_000);
     report.merge(engine::run_generated(&check, &cfg, cases, 8, 16, findings, 0));
     engine::finish(
